@@ -306,8 +306,18 @@ type histRecord struct {
 	Obs  []*obsT `json:"obs"`
 }
 
+// histHung counts histories that did not finish; after a few of them the
+// remaining history cases are skipped (each costs a 10 s watchdog).
+var histHung int
+
 func (x *runner) hist(c *caseT) {
+	if histHung >= 4 {
+		return
+	}
 	hr, obs := runHist(c)
+	if hr.hung {
+		histHung++
+	}
 	canon, _ := json.Marshal(c)
 	classes := []string{"role/hist", "hist/side/" + c.Side, fmt.Sprintf("hist/connections/%d", len(c.Sessions)), "gen/" + c.Tag}
 	called := 0
@@ -365,7 +375,7 @@ func (x *runner) hist(c *caseT) {
 		o.Wire = ""
 		for _, f := range oracle(hr.cases[i], o) {
 			o.Wire = wire
-			x.res.Fail(f.key, fmt.Sprintf("connection %d of %d sharing one SASL feature value (calls so far: %s): %s", i, len(obs), opsText(hr.ops), f.what), c)
+			x.res.Fail(f.key, fmt.Sprintf("connection %d of %d sharing one SASL feature value (order of Parse/Negotiate calls: %s): %s", i, len(obs), opsText(hr.ops), f.what), c)
 		}
 	}
 	rec := histRecord{c, hr.ops, obs}
